@@ -81,6 +81,14 @@ package main
 //@   call 0 FlagSet).VarP("verbose") assert dyntype(arg_1, "*sizes.thresholdFlagValue") && unbox(arg_1, "*sizes.thresholdFlagValue").threshold == threshold && same(unbox(arg_1, "*sizes.thresholdFlagValue").value, 0.0) && same(arg_3, "v")
 //@   call 0 FlagSet).Var("no-verbose") assert dyntype(arg_1, "*sizes.thresholdFlagValue") && unbox(arg_1, "*sizes.thresholdFlagValue").threshold == threshold && same(unbox(arg_1, "*sizes.thresholdFlagValue").value, 1.0)
 //@   call 0 FlagSet).Var("critical") assert dyntype(arg_1, "*sizes.thresholdFlagValue") && unbox(arg_1, "*sizes.thresholdFlagValue").threshold == threshold && same(unbox(arg_1, "*sizes.thresholdFlagValue").value, 30.0)
+// the boolean options may be given without a value: each of them is looked up
+// for its NoOptDefVal (that the value stored is "true" is not decided: the
+// flag record is pflag's memory)
+//@   call 0 FlagSet).Lookup("verbose") as lkV
+//@   call 0 FlagSet).Lookup("no-verbose") as lkNV
+//@   call 0 FlagSet).Lookup("critical") as lkC
+//@   call 0 FlagSet).Lookup("no-progress") as lkNP
+//@   ensures lkV_reached && lkNV_reached && lkC_reached && lkNP_reached
 //@   call 0 FlagSet).Var("threshold") assert arg_1 == box(threshold, "*sizes.Threshold")
 //@   call 0 FlagSet).Var("names") assert arg_1 == box(nameStyle, "*sizes.NameStyle")
 //@   call 0 FlagSet).Var("no-progress") assert dyntype(arg_1, "*main.NegatedBoolValue") && unbox(arg_1, "*main.NegatedBoolValue").value == progress
